@@ -703,8 +703,7 @@ func transferredToken(w *world.World, tok []byte, nonce uint64, qty *big.Int) []
 	if verif.Bool("p.hasuri") {
 		t.TokenMetaData.URIs = [][]byte{verif.Bytes("p.uri", 1)}
 	}
-	b, _ := w.Codec.Marshal(t)
-	return b
+	return w.Codec.Pack(t)
 }
 
 func scnNFTTransfer(o Opt) *Scn {
